@@ -31,7 +31,7 @@ Definition run_pipe {T : Type} (n : N) (f : Z -> T -> T) (a : T) : option T :=
 
 Definition model (c : case) : option (list Z) :=
   match fam c with
-  | 2%N => run_pipe (arity c) fam2 (input c)
+  | 2%N | 3%N => run_pipe (arity c) fam2 (input c)
   | f => match input c with [x] => option_map (fun y => [y]) (run_pipe (arity c) (fam01 f) x) | _ => None end
   end.
 Definition mismatches (cs : list case) : list N := idx_where (fun c => negb (agree (model c) (observed c))) 0%N cs.
